@@ -88,6 +88,7 @@ type Engine struct {
 	globalConsts map[*ssa.Global]*constGlobal
 	callOrdinals map[ssa.Instruction]int
 	rootContract *FuncContract
+	rootFn       *ssa.Function
 	// propID: id of the property being checked ("" in debug runs); see frameOnlyApplies
 	propID string
 }
